@@ -455,3 +455,32 @@ PROPS['C18'] = {
     'technique': 'static analysis: who-may-call over the mono call graph + must-pass-through and dependence on MIR',
     'assumptions': COMMON_ASSUMPTIONS,
 }
+
+PROPS['C19'] = {
+    'modules': ['c19'],
+    'level': 'other',
+    'quick_configs': ['default'],
+    'thorough_configs': ['default'],
+    'controls': [],
+    'floors': {'default': {'R19.1': 1000, 'R19.1b': 2, 'R19.3': 2}},
+    'rule_text': 'one obligation per fatfs function body per configuration pair (default vs no-alloc, default vs '
+                 'no-unicode): equal normalised fingerprint or member of the documented feature-dependent set; one per '
+                 'user of the unicode-dependent case-folding function; the sibling API and size relation of the two '
+                 'long-name buffers; non-trivial = bodies that actually differ',
+    'explanation': 'A11 cross-configuration diff of the resolved program: the fact extractor is run on the same tree under '
+                   'the three feature sets the statement names; every function body is reduced to a multiset of semantic '
+                   'events (callees, operators with constants, constructed variants, assigned fields, switch values, '
+                   'asserts; drop elaboration, spans, local numbering and local types excluded). Bodies that differ or '
+                   'exist on one side only must belong to the documented set (long-name buffer and builder, String-'
+                   'returning accessors, chrono items; char_to_uppercase for the unicode feature). Callers of the '
+                   'unicode-dependent function are confined to the two name-comparison functions, so the feature cannot '
+                   'leak into bytes written to the volume. The fixed buffer offers the same methods and holds 20 x 13 >= '
+                   '255 units. Every other property is additionally evaluated under all four configurations by its '
+                   'thorough tier. Byte-identical images are a runtime property and not decided.',
+    'claim': 'Feature-dependent code is confined to the documented items and their documented users (whole-crate diff of '
+             'resolved bodies across feature sets); image identity is not decided.',
+    'level_note': 'the allow-list of feature-dependent items is in rules/c19.py; a configuration that does not build is '
+                  'reported as skipped',
+    'technique': 'static analysis: cross-configuration diff of normalised MIR bodies + who-may-call',
+    'assumptions': COMMON_ASSUMPTIONS,
+}
